@@ -18,6 +18,9 @@ P = {
  "C03": ("E2", SEQ_TECH,
          "Same exploration over the 13 variable-body tables; in every state an independent walker steps through the body by the entries' own length fields (HEST: by the specification's per-type sizes), must land on the image end, must find exactly the entries the history added (type, order, size), and every count/offset/string-length field must agree with what the walk finds.",
          SEQ_NOTE, "DESIGN.md section 4 C03"),
+ "C04": ("E4+E2", "bounded-exhaustive enumeration of builder programs (deviation bound 2 over per-field alphabets) + the sequence exploration, byte equality with a spec-derived reference encoder",
+         "Entry layer: for every table, entry kind and shape, the base argument tuples, every single-field deviation over the field's alphabet (0, 1, max, max-1, two distinct-byte patterns, every single bit, seed values; enums over all variants; optional parts present/absent) and every pair of fields over the extremes are built on the real crate inside a table and compared byte-for-byte with an independent reference encoder written from the specifications. Table layer: every state of the C01 exploration is compared with the reference image (header, reserved words, entries in order, Length, checksum).",
+         SEQ_NOTE + " Constants that could not be settled offline (table revision bytes, FACS version, TCPA spec-revision bytes, RIMT and RQSC field order, RDPAS layout) are pinned to the baseline and act as regression trip-wires.", "DESIGN.md section 4 C04"),
  "C05": ("E2", SEQ_TECH,
          "PPTT, RHCT, RIMT, VIOT: every add operation of every node kind, with reference-taking operations instantiated with every handle selector (first, middle, latest) over earlier handles; in every intermediate image each returned handle (PPTT/RHCT: read through Debug) and each reference field must equal the offset at which the independent body walk finds the node it names.",
          SEQ_NOTE + " RIMT/VIOT handles are opaque (no Debug): their value is observed only where a later operation uses them.", "DESIGN.md section 4 C05"),
@@ -45,12 +48,18 @@ P = {
  "C13": ("E1", "stateright depth-bounded search over operation sequences on the real Sdt against a Vec<u8> reference model",
          "All sequences over typed/slice appends, typed/slice writes at every offset 0..len+1 and usize::MAX, and sink pushes to depth 2 (full alphabet, initial lengths 36/37/40), over a reduced offset set to depth 3 (quick) / 4 (thorough), and from lengths 255 and 65534 so that appends carry Length across 256 and 65536; each transition replays the history on a fresh real table and compares as_slice, len and the serialisation with a plain byte-vector model; refused writes must leave the table bit-identical.",
          "Two values per width; depth-bounded. A write into the Length field is modelled as a plain write.", "DESIGN.md section 4 C13"),
+ "C14": ("E2+E4", "exhaustive enumeration of explored objects x sink implementations, stream equality",
+         "Every table state of the depth<=3 sequence exploration, long-lane states, every add_structure-able type over 56 argument fillings, and the C06/C10 program roots are serialised twice into Vec and once into a byte-only sink, an all-methods sink, the Checksum sink, u8sum, the Sdt sink and the PackageBuilder sink; every stream must equal the Vec stream, as_bytes() must equal the serialised form and the byte-sum helper the arithmetic sum.",
+         "AML children are pre-serialised, so only the root object's call pattern varies per sink; Sdt-as-sink skipped above 2048 bytes.", "DESIGN.md section 4 C14"),
  "C15": ("E4", "bounded-exhaustive enumeration of paired construction paths, byte equality",
          "Scope::raw vs Scope::new for 6 path shapes x every body size 0..4200 and around 2^20 and every child list <=3; PackageBuilder vs Package for every element count 0..255, all lists <=3 and nested; &str vs String for every length 0..300; usize vs u64 over the structured integer set.",
          "Equality of the two paths only; correctness of the bytes is C06/C07.", "DESIGN.md section 4 C15"),
  "C16": ("E3", "whole-domain sweep of all 26^3*16^4 EISA ids (thorough) and positional enumeration of UUID strings on the real encoders",
          "EISA: every identifier (thorough) or every position over its full set plus all letter triples x 256 digit patterns (quick) is emitted and decompressed by the specification's rule; UUID: every nibble position x 16 digits x 2 cases x 3 backgrounds, seed-derived strings, all position pairs (thorough), decoded through the ToUUID inverse; malformed strings (every wrong length, digit at a dash, bad character at each nibble) must be refused.",
          "The UUID space is covered structurally, not exhaustively.", "DESIGN.md section 4 C16"),
+ "C18": ("E3", "enumeration over every narrowing site x {max-1, max, max+1, far beyond} x {release, overflow-checked} builds of the real crate",
+         "23 caller-controlled narrowing sites (name segments, package elements, method arguments, PkgLength, address-space sizes, PPTT/CEDT/HMAT/RIMT/VIOT/SLIT/RHCT/RQSC counts, lengths and offset cursors) are driven at and beyond their field maximum in two builds of the same harness: default release (wrapping arithmetic) and a profile with overflow checks. At or below the maximum the bytes must pass the framing oracles of C03/C06/C10; above it the call must panic in both builds.",
+         "Only the sites found by reading the crate are driven; 4 GiB table lengths are not materialised.", "DESIGN.md section 4 C18"),
  "C17": ("E3+E1", "complete enumeration of the accumulator's 256-state transition relation on the real code + stateright closure",
          "All 256 accumulator states x all 256 bytes x {add, sub, sink byte}, all (state, 2-byte slice) pairs for the slice and sink forms, and a stateright closure from the default accumulator that must reach exactly 256 states, each compared with a wide-integer reference. The state is one byte, so single steps from every state cover every history: this is a complete check, not a bound.",
          "Trusts that raw_value() exposes the whole state (the struct has a single u8 field) and that the host is 64-bit little-endian.",
